@@ -279,3 +279,68 @@ def same(real, spec):
     if isinstance(spec, list):
         return isinstance(real, list) and len(real) == len(spec) and all(same(a, b) for a, b in zip(real, spec))
     return type(real) == type(spec) and real == spec
+
+
+# ------------------------------------------------------------------ encoding
+def encode(nf, val):
+    """bytes of a fixed-size layout for a (partial) value; missing fields are zero.
+    val: dict field-path -> python value ('a.b' paths for nested members; enum members
+    given as name or integer).  Used to synthesise concrete inputs from solver models."""
+    k = nf[0]
+    if k == 'int':
+        _, n, signed, en = nf
+        v = val if isinstance(val, int) and not isinstance(val, bool) else 0
+        lo, hi = (-(1 << (8 * n - 1)), 1 << (8 * n - 1)) if signed else (0, 1 << (8 * n))
+        v = min(max(v, lo), hi - 1)
+        return v.to_bytes(n, 'little' if en == 'le' else 'big', signed=signed)
+    if k == 'enum':
+        v = val
+        if isinstance(v, dict):
+            if v.get('isname') and v.get('name') in nf[2]:
+                v = nf[2][v['name']]
+            else:
+                v = v.get('raw', 0)
+        elif isinstance(v, str):
+            v = nf[2].get(v, 0)
+        return encode(nf[1], v)
+    if k in ('struct', 'sequence'):
+        out = b''
+        for name, sub in nf[1]:
+            if sub[0] in ('value', 'offset'):
+                continue
+            sv = sub_value(val, name) if name is not None else None
+            out += encode(sub, sv)
+        return out
+    if k == 'pad':
+        return nf[2] * (nf[1] if isinstance(nf[1], int) else 0)
+    if k == 'array' and isinstance(nf[1], int):
+        return b''.join(encode(nf[2], None) for _ in range(nf[1]))
+    if k == 'bits':
+        total = sum(w for (_n, w, _e, _s, _sw) in nf[1])
+        acc = 0
+        for name, w, enum, signed, swapped in nf[1]:
+            v = sub_value(val, name) if name is not None else 0
+            if isinstance(v, dict):
+                if enum is not None and v.get('isname') and v.get('name') in enum[2]:
+                    v = enum[2][v['name']]
+                else:
+                    v = v.get('raw', 0)
+            if isinstance(v, str):
+                v = enum[2].get(v, 0) if enum is not None else 0
+            v = (v or 0) & ((1 << w) - 1)
+            acc = (acc << w) | v
+        return acc.to_bytes((total + 7) // 8, 'big')
+    if k in ('bytes', 'string') and isinstance(nf[1], int):
+        return bytes(nf[1])
+    raise Fail('encode: variable-size node %r' % (k,))
+
+
+def sub_value(val, name):
+    """member `name` of a flat path dict {'a': 1, 'b.x': 2, 'c.isname': True, ...}"""
+    if not isinstance(val, dict):
+        return None
+    if name in val:
+        return val[name]
+    pre = name + '.'
+    sub = {k[len(pre):]: v for k, v in val.items() if k.startswith(pre)}
+    return sub or None
